@@ -40,29 +40,24 @@ impl Stream for Repeat {
         Ok(self.0.clone())
     }
     fn pythonic_slice(&self, lo: Option<isize>, hi: Option<isize>) -> NRes<Seq> {
-        let lo = match lo {
-            Some(x) => {
-                if x < 0 {
-                    x - 1
-                } else {
-                    x
-                }
-            }
-            None => 0,
+        // a negative bound counts back from the (infinitely far) end; a missing upper bound is that end
+        let (lo_end, lo) = match lo {
+            Some(x) => (x < 0, x),
+            None => (false, 0),
         };
-        let hi = match hi {
-            Some(x) => {
-                if x < 0 {
-                    x - 1
-                } else {
-                    x
-                }
-            }
-            None => -1,
+        let (hi_end, hi) = match hi {
+            Some(x) => (x < 0, x),
+            None => (true, 0),
         };
-        Ok(match (lo < 0, hi < 0) {
+        Ok(match (lo_end, hi_end) {
             (true, true) | (false, false) => {
-                Seq::List(Rc::new(vec![self.0.clone(); (hi - lo).max(0) as usize]))
+                let width = (hi as i128 - lo as i128).max(0) as usize;
+                let mut v = Vec::new();
+                v.try_reserve_exact(width).map_err(|_| {
+                    NErr::value_error(format!("repeat: a slice of {} elements is too long", width))
+                })?;
+                v.resize(width, self.0.clone());
+                Seq::List(Rc::new(v))
             }
             (true, false) => Seq::List(Rc::new(Vec::new())),
             (false, true) => Seq::Stream(Rc::new(self.clone())),
